@@ -129,6 +129,24 @@ def _parse_int(x: str) -> int:
     return int(x)
 
 
+def _in_base64_literal(fields: List[str], token: str) -> bool:
+    """Return True if the token being read is base64 data, in which "//" is not a comment.
+
+    "/" is a character of the base64 alphabet: `byte base64 //8=` and `byte b64(//8=)` are the
+    two bytes 0xffff.
+
+    Args:
+        fields: tokens read so far.
+        token: the part of the current token read so far.
+
+    Returns:
+        True if the current token is the argument of base64/b64 or starts with base64( or b64(.
+    """
+    if token.startswith(("base64(", "b64(")):
+        return True
+    return len(fields) > 0 and fields[-1] in ("base64", "b64")
+
+
 def _split_instruction_into_tokens(line: str) -> List[str]:
     """Split given instruction into tokens.
 
@@ -181,7 +199,7 @@ def _split_instruction_into_tokens(line: str) -> List[str]:
                 i += 1
             else:
                 raise ParseError(f"missing closing qoute {line}")
-        elif line[i : i + 2] == "//":
+        elif line[i : i + 2] == "//" and not _in_base64_literal(fields, line[start:i]):
             fields.append(line[i:])
             return fields
         else:
@@ -506,7 +524,7 @@ def parse_line(line: str) -> Optional[instructions.Instruction]:
     source_code_line = line
     fields = _split_instruction_into_tokens(line)
     comment = ""
-    if fields[-1].startswith("//"):
+    if fields[-1].startswith("//") and not _in_base64_literal(fields[:-1], ""):
         comment = fields[-1]
         fields = fields[:-1]
 
